@@ -28,6 +28,7 @@ import (
 
 	"github.com/gontainer/gontainer-helpers/v3/exporter"
 	"github.com/gontainer/gontainer/internal/pkg/consts"
+	"github.com/gontainer/gontainer/internal/pkg/imports"
 	"github.com/gontainer/gontainer/internal/pkg/regex"
 )
 
@@ -143,7 +144,7 @@ func (f *FactoryFunction) Create(expr string) (Token, error) {
 	body := fmt.Sprintf(
 		`r, err = %s; if err != nil { err = %s.Errorf("%%s: %%w", %s, err) }; return`,
 		callFn,
-		f.aliaser.Alias("fmt"),
+		imports.InternalAlias(f.aliaser, "fmt"),
 		exporter.MustExport(fmt.Sprintf("cannot execute %s", expr)),
 	)
 
